@@ -13,8 +13,9 @@ REQUIRED = ["PdsVerif.C06." + n for n in """halfLen_doc compact_defined start_in
     real_within_half rebuildComplex_get rebuildReal_get real_hermitian rebuild_eq_full_tri rebuild_eq_full_fbank
     half_is_prefix half_is_prefix_periodic analytic_neg_zero full_hermitian start_in_range_periodic
     trunc_len_le_periodic gabor_no_fallback_narrow gammatone_no_fallback_narrow fallback_whole_period
-    periodic_rebuild_get periodic_periods gabor_outside_le_eps gabor_wrap_le gabor_diff_le_wrap
-    gammatone_outside_le_eps gammatone_wrap_le gammatone_diff_le_wrap""".split()]
+    periodic_rebuild_get periodic_periods gabor_outside_le_eps gabor_wrap_le gabor_diff_le_wrap gabor_far_le
+    gammatone_outside_le_eps gammatone_wrap_le gammatone_diff_le_wrap gabor_within_2eps gammatone_within_2eps
+    lattice_in_support_iff tap_period_mem""".split()]
 RULE = (
     "library banks: 6 kinds (triangular / Fbank real and analytic, Gabor, complex gammatone) x 4 scales x rates "
     "(500 Hz .. 48 kHz, integer and fractional) x (low, high) ranges incl. the exact Nyquist x num_filts 1..40 "
@@ -39,9 +40,11 @@ TRUSTED = [
 ASSUMPTIONS = [
     "CompactOK: filter edges 0 <= low <= high <= rate/2 as exact fractions (float vertices that overshoot Nyquist by an "
     "ulp are counted as hypothesis_gap_cases; the model still evaluates them and is compared)",
-    "gabor/gammatone <= 2*EFFECTIVE_SUPPORT_THRESHOLD between rebuilt and full response: proved per image (principal "
-    "image <= eps outside supports_ang, <= eps/sqrt2 resp. eps/2 outside the wrap support, three images summed, taps on "
-    "distinct bins); the final summation over the three images is the stated residue and is checked by the oracle",
+    "gabor/gammatone <= 2*EFFECTIVE_SUPPORT_THRESHOLD: proved over the reals for every frequency x and every sub-list of "
+    "the periods -1,0,1 (gabor_within_2eps needs peak >= eps, true of every constructible bank; both need 'fallback not "
+    "taken'); the identification bin b <-> x = 2*pi*b/W, float supports_ang <-> centre +- diff_ang and the round-off of the "
+    "response values are not in a theorem (glue lemmas lattice_in_support_iff, tap_period_mem, periodic_rebuild_get, "
+    "periodic_periods are) - the oracle checks the assembled claim on the implementation",
     "Fbank: truncated takes the square root of the whole array, full of each scalar; NumPy's two pow paths differ by "
     "<= 1 ulp, so 'identical' is checked at 1e-12 absolute (exact equality is counted)",
     "float round-off of the response values themselves is outside every theorem",
@@ -55,14 +58,16 @@ LEVEL_TEXT = (
     "fallback predicate => support narrower than a period => len <= W and taps on distinct bins, fallback returns the "
     "full response unchanged, the periods summed; over the reals: a principal image outside supports_ang is <= eps "
     "(Gabor with/without l2 norm; gammatone any order/offset, complex H), <= eps/sqrt2 resp. eps/2 outside the wrap "
-    "support. Partial: the final '<= 2 eps' summation over the three periodic images is oracle-tested only."
+    "support, <= eps/4 two wrap radii away (Gabor), and - fallback not taken - the sum of the periodic images differs from "
+    "the image inside the support (or from 0 when none is) by <= 2 eps for every frequency. Not in a theorem: float "
+    "round-off of edges and values (the assembled '<= 2 eps' on arrays is oracle-tested)."
 )
 LEVEL_NOTE = (
     "Trusted: NumPy slice-assignment semantics as modelled (tested exhaustively for small widths), exact-rational reading "
     "of the float edges (float ceil/floor at exact multiples counted separately), harness re-derivation of std/alpha for "
     "the fallback predicate. Values are abstract; round-off is outside the theorems."
 )
-TECHNIQUE = "Lean 4 proofs (write-sequence / slice-assignment closed forms, omega; real analysis for the support radii) + exact index correspondence"
+TECHNIQUE = "Lean 4 proofs (write-sequence / slice-assignment closed forms, omega; real analysis for the support radii and the sum of periodic images) + exact index correspondence"
 
 EPS_NAME = "EFFECTIVE_SUPPORT_THRESHOLD"
 
@@ -156,6 +161,10 @@ FIXED_SPECS = [
     dict(kind="tri", rate=16000, low_hz=20.0, high_hz=None, num_filts=40, scale=dict(name="mel"), analytic=False),
     dict(kind="fbank", rate=16000, low_hz=20.0, high_hz=None, num_filts=40, analytic=False),
     dict(kind="fbank", rate=8000, low_hz=0.0, high_hz=4000.0, num_filts=1, analytic=True),
+    # an edge exactly on a bin frequency at a fractional sampling rate (finding: float-unsafe asserts raised)
+    dict(kind="tri", rate=13101.77, low_hz=300.0, high_hz=6550.885, num_filts=5, scale=dict(name="linear", low_hz=300.0, slope_hz=1.0),
+         analytic=False, widths=[6, 12, 18], filts=[4]),
+    dict(kind="fbank", rate=13101.77, low_hz=0.0, high_hz=None, num_filts=4, analytic=False, widths=[6, 10]),
     # low_hz above the (default) top edge: the documented ValueError (finding F-C06: Fbank used to accept it)
     dict(kind="fbank", rate=500, low_hz=300.0, high_hz=None, num_filts=3, analytic=False),
     dict(kind="fbank", rate=500, low_hz=300.0, high_hz=None, num_filts=10, analytic=True),
@@ -281,6 +290,7 @@ def oracle_case(ctx, bank, spec, i, W, eps):
         full = bank.get_frequency_response(i, W)
         half = bank.get_frequency_response(i, W, half=True)
     except Exception as e:  # noqa
+        tags["exc"] = type(e).__name__
         viol("no exception", "%s: %s" % (type(e).__name__, e), "frequency-domain methods raise", "raises")
         return None
     tr = np.asarray(tr)
@@ -441,7 +451,7 @@ def periodic_lines(ctx, spec, bank, i, W, lay, eps):
 def gen_banks(ctx):
     r = ctx.rng
     specs = [dict(s) for s in FIXED_SPECS]
-    n = ctx.scale(260, 3000)
+    n = ctx.scale(260, 5000)
     while len(specs) < n:
         specs.append(random_spec(r))
     return specs
@@ -472,7 +482,7 @@ def run(ctx, driver):
             continue
         kind = spec["kind"]
         nf = bank.num_filts
-        filts = sorted({0, nf - 1, nf // 2, r.randrange(nf)})
+        filts = sorted({0, nf - 1, nf // 2, r.randrange(nf)} | {f for f in spec.get("filts", []) if f < nf})
         lay = None
         if kind in ("gabor", "gammatone"):
             try:
@@ -482,7 +492,7 @@ def run(ctx, driver):
         quick = ctx.tier == "quick"
         for i in filts:
             ws = pick_widths(r, 3 if quick else 5, 2 if quick else 4, 1 if (quick and r.random() < 0.5) else (0 if quick else 2))
-            for W in ws:
+            for W in sorted(set(ws) | set(spec.get("widths", []))):
                 case = dict(bank=spec, filt=i, width=W)
                 ctx.case(case, kind="%s%s" % (kind, ":analytic" if spec.get("analytic") else ""))
                 ctx.count("width:%s" % ("2-9" if W < 10 else "10-99" if W < 100 else "100-999" if W < 1000 else "1000-4096"))
